@@ -11,7 +11,7 @@
 #endif
 using namespace vf;
 
-struct Config { std::string font; int nthreads; std::vector<std::string> texts; int dir; int mode; };   // mode 0 conforming, 1 control: lazy face, 2 control: hinted font
+struct Config { std::string font; int nthreads; std::vector<std::string> texts; int dir; int mode; };   // mode 0 conforming, 1 control: lazy face, 2 control: hinted font, 3 control: library writes into one caller-supplied buffer
 static std::vector<Config> g_cfg;
 static float adv_cb(const void *, gr_uint16 gid) { return 5.0f + gid % 7; }
 
@@ -26,11 +26,13 @@ static std::string body_result(gr_face *face, gr_font *font, const std::string &
     appf(d, "sup %d\n", gr_face_is_char_supported(face, 0x61, 0));
     if (s) gr_seg_destroy(s); gr_featureval_destroy(fv); return d;
 }
+static char g_ctrl_buf[8];     // mode 3: every thread asks the library to write a tag into this one buffer (a conflict by the API's own contract)
 static void *thread_main(void *arg) {
     int id = int(intptr_t(arg));
 #ifdef VF_TRK
     trk_sched_thread_enter(id); trk_thread_begin(id);
 #endif
+    if (g_sh->cfg->mode == 3) gr_tag_to_str(0x61626364u + unsigned(id), g_ctrl_buf);
     std::string r = body_result(g_sh->face, g_sh->font, g_sh->cfg->texts[id], g_sh->cfg->dir);
 #ifdef VF_TRK
     { static char buf[4][1 << 16]; size_t n = r.size() < sizeof buf[0] - 1 ? r.size() : sizeof buf[0] - 1; for (size_t i = 0; i < n; ++i) buf[id][i] = r[i]; buf[id][n] = 0; r.clear(); r.shrink_to_fit(); trk_thread_end(); g_sh->out[id] = buf[id]; trk_sched_thread_exit(id); }
@@ -68,9 +70,9 @@ static void setup(Runner &r, const Tier &t) {
         { "Padauk.ttf", { "\xE1\x80\x80\xE1\x80\xBB\xE1\x80\xBD\xE1\x80\x94\xE1\x80\xBA", "\xE1\x80\x99\xE1\x80\xBC\xE1\x80\x94\xE1\x80\xBA\xE1\x80\x80", "\xE1\x80\x80\xE1\x80\xAD\xE1\x80\xAF" } } };
     if (t.thorough) { fs.push_back({ "Scheherazadegr.ttf", { "\xD8\xA8\xD8\xB3\xD9\x85", "\xD8\xB3\xD9\x84\xD8\xA7\xD9\x85", "\xD9\x85\xD8\xA8" } }); fs.push_back({ "Awami_test.ttf", { "\xD9\xBE\xD8\xB3\xD8\xAA", "\xD8\xBA\xD9\x84\xD9\x8A", "\xD8\xB3\xD8\xAA" } }); fs.push_back({ "charis_r_gr.ttf", { "office", "fi\xCC\x81sh", "aff" } }); }
     for (auto &f : fs) for (int n : { 2, 3 }) { if (!t.thorough && n == 3 && f.f.find("Padauk") != std::string::npos) continue; for (int dir : { 0, 1 }) { if (!t.thorough && dir == 1 && n == 3) continue;
-        for (int mode = 0; mode < 3; ++mode) { if (mode && (n != 2 || dir != 0)) continue; g_cfg.push_back({ f.f, n, f.tx, dir, mode }); } } }
+        for (int mode = 0; mode < 4; ++mode) { if (mode && (n != 2 || dir != 0)) continue; g_cfg.push_back({ f.f, n, f.tx, dir, mode }); } } }
     r.ncases = g_cfg.size(); r.case_alarm_s = unsigned(r.deadline_s) + 600; r.nshards = 8;
-    r.describe = [](uint64_t i) { const Config &c = g_cfg[i]; JObj o; o.kv("font", c.font).kv("threads", c.nthreads).kv("dir", c.dir).kv("configuration", c.mode == 0 ? "preloadAll face + gr_make_font (claimed domain)" : c.mode == 1 ? "POSITIVE CONTROL: lazily loading face" : "POSITIVE CONTROL: font with advance callback");
+    r.describe = [](uint64_t i) { const Config &c = g_cfg[i]; JObj o; o.kv("font", c.font).kv("threads", c.nthreads).kv("dir", c.dir).kv("configuration", c.mode == 0 ? "preloadAll face + gr_make_font (claimed domain)" : c.mode == 1 ? "POSITIVE CONTROL: lazily loading face" : c.mode == 2 ? "POSITIVE CONTROL: font with advance callback" : "POSITIVE CONTROL (must be detected): every thread has the library write into one caller-supplied buffer");
         JArr tx; for (int k = 0; k < c.nthreads; ++k) tx.add(hex(c.texts[k].data(), c.texts[k].size())); o.raw("texts_utf8_hex", tx.str()); return o; };
     r.body = [](uint64_t ci, ShardCtl &ctl) {
         const Config &c = g_cfg[ci]; std::vector<std::string> ref; reference(c, ref); if (int(ref.size()) != c.nthreads) return;
@@ -86,7 +88,7 @@ static void setup(Runner &r, const Tier &t) {
         if (!check_outputs("sequential")) return;
         static trk_conflict conf[16]; int nconf = trk_dependent(c.nthreads, conf, 16);
         uint64_t schedules = 1; std::set<std::string> outcomes;
-        if (nconf == 0) { ctl.counters[3] = ctl.counters[3] + 1; if (c.mode != 0) fail("control_not_detected", "positive control configuration produced no conflicting accesses: the tracking runtime does not see the library's shared writes"); }
+        if (nconf == 0) { ctl.counters[3] = ctl.counters[3] + 1; if (c.mode == 3) fail("control_not_detected", "positive control configuration produced no conflicting accesses: the tracking runtime does not see the library's shared writes"); else if (c.mode != 0) ctl.counters[8] = ctl.counters[8] + 1; }
         else {
             ctl.counters[4] = ctl.counters[4] + nconf;
             if (c.mode == 0) { std::string w; for (int k = 0; k < nconf && k < 3; ++k) { char b[200]; snprintf(b, sizeof b, "granule %llx written by thread %d at [%s] and %s by thread %d at [%s]; ", (unsigned long long)conf[k].granule, conf[k].writer, symbolize(conf[k].writer_pc).c_str(), conf[k].other_writes ? "written" : "read", conf[k].other, symbolize(conf[k].other_pc).c_str()); w += b; }
@@ -124,7 +126,7 @@ int main(int argc, char **argv) {
     { Sub s; s.name = "tsan_free_running"; s.setup = [](Runner &r, const Tier &t) { setup(r, t); std::vector<Config> keep; for (auto &c : g_cfg) if (c.mode == 0) keep.push_back(c); g_cfg = keep; r.ncases = g_cfg.size(); }; s.budget_quick = 120; s.budget_thorough = 600; s.counter_names = { "a", "b", "c", "d", "e", "runs" }; s.extra = extra; subs.push_back(s); }
 #else
     { Sub s; s.name = "access_level_exploration"; s.setup = setup; s.budget_quick = 140; s.budget_thorough = 900;
-      s.counter_names = { "shared_reads", "shared_writes", "private_accesses", "configs_with_empty_dependence", "dependent_granules", "schedules_executed", "distinct_outcomes", "schedule_cap_hit" }; s.extra = extra; subs.push_back(s); }
+      s.counter_names = { "shared_reads", "shared_writes", "private_accesses", "configs_with_empty_dependence", "dependent_granules", "schedules_executed", "distinct_outcomes", "schedule_cap_hit", "library_controls_without_conflict" }; s.extra = extra; subs.push_back(s); }
 #endif
     return check_main(argc, argv, "C09", subs);
 }
